@@ -637,7 +637,7 @@ var seriesKnown = []string{"x", "a", "t", "build", "string"}
 func withKnown(c *Case) { c.Known = seriesKnown }
 
 // the inputs already known to fail on the pinned tree come first
-var corpusHang = []string{"x {", "x [", "x {a:1}\nx {a:", "a {\n", "t [1,", "x {a:[", "x \"s\" {", "x {a:1", "build {\n  name: \"n\",\n  deps: [\"a\",\n"}
+var corpusHang = []string{"x {", "{a:1}\n/* unterminated", "1;/*", "x [", "x {a:1}\nx {a:", "a {\n", "t [1,", "x {a:[", "x \"s\" {", "x {a:1", "build {\n  name: \"n\",\n  deps: [\"a\",\n"}
 var corpusNum = []string{"-1.5", "-1e5", "0x1F", "007", "-0x10", "1e+06", "1E+2", "+1.5", "-0.0", "08", "0x", "-0", "1.", "1.e3", "1e", "1e-", "1e400", "0x1g", "00", "0b1", "1_0", "- 5", "-\n5", "--5", "+-5", "0e0", "123456789012345678901234567890", "-9223372036854775809", "0777", "0xFFFFFFFFFFFFFFFFFF", "1E5", "1e05", "0.1e-7"}
 
 var docs = []string{
@@ -653,6 +653,8 @@ var docs = []string{
 	"t true; t false; x null;",
 	"{\"a\":\"\\u00e9\\x41\\101\\U0001F600\",\"b\":-1.5e-3}",
 	"[[[[]]],{},{a:{}},]",
+	"{a:1}\n/* done */\n",
+	"[1,2] ; /* end */ // eof",
 }
 
 var alphabet = []string{"{", "}", "[", "]", ",", ":", "a", "\"s\"", "1", "-", "\n", ";", "true", "1.5", ".", "x"}
